@@ -42,7 +42,19 @@ impl DownloadManifest {
         // Validate header
         header.validate()?;
 
-        let mut entries = Vec::with_capacity(header.entry_count() as usize);
+        // The counts of the header are checked against the input before memory is reserved
+        // for them: an entry takes at least key + 40-bit size + priority, every tag carries
+        // a bit mask of entry_count bits
+        let remaining = data
+            .len()
+            .saturating_sub(usize::try_from(cursor.position()).unwrap_or(usize::MAX));
+        let min_entry_size = usize::from(header.ekey_length()) + 6;
+        let bit_mask_size = (header.entry_count() as usize).div_ceil(8);
+        if header.tag_count() > 0 && bit_mask_size > remaining {
+            return Err(std::io::Error::from(std::io::ErrorKind::UnexpectedEof).into());
+        }
+        let mut entries =
+            Vec::with_capacity((header.entry_count() as usize).min(remaining / min_entry_size));
         let mut tags = Vec::with_capacity(header.tag_count() as usize);
 
         // All versions: Parse entries first
